@@ -44,3 +44,20 @@ func init() {
 		},
 	}
 }
+
+func init() {
+	checks["C36"] = &checkDef{
+		Level:       levelOther,
+		Explanation: "Symbolic execution of the real rueidisprob countingBloomFilter (AddMulti, RemoveMulti, ExistsMulti, ItemMinCountMulti, Count and the single-item forms; countingbloomfilter.go) against a Redis model that runs the real add and remove-with-rollback script texts in the harness-side Lua interpreter; HMGET/GET issued by the Go side are answered by the same model. The hash holding the counters is fresh or has arbitrary non-negative pre-existing counters (contributions of other items); bit indexes are an arbitrary function of (item, i) so that every aliasing pattern between and within items is covered (the solver decides each field comparison). (a) Histories of adds and admissible removals (only items whose net multiplicity is ≥ 1, singly, in pairs, duplicated in one call) of two items: after every step no counter is negative; at the end every item with positive net multiplicity is reported present, ItemMinCount ≥ its net multiplicity, multi-key answers are per key in order. (b) Refused removals: an item with a zero counter removed alone or twice: no HINCRBY, no counter changed, Count unchanged; mixed with an admissible removal in either order: no counter negative and at most one item removed.",
+		Assumptions: []string{"murmur3/index() replaced by an arbitrary deterministic function of (item, i) (see C35 (b) for index())", "the Lua interpreter and the Redis model (HINCRBY, HGET, HMGET, INCRBY, DECRBY, GET) are harness code", "strconv formatting/parsing replaced by placeholder-based overrides"},
+		Trusted:     []string{"harness/luasym.go.txt"},
+		Outside:     []string{"histories longer than the bound, more than two items", "Delete"},
+		Bounds:      map[string]any{"quick": "k ∈ {1,2}, 2 steps", "thorough": "k ∈ {1,2}, 3 steps"},
+		specs: func(tier string) []specRef {
+			return []specRef{
+				probSpec("VerifC36_history", P{"max_k": 2, "steps": q(tier, int64(2), 3)}, probOverrides, 3000, "existing", "removed", "queried"),
+				probSpec("VerifC36_refused", P{"max_k": 2}, probOverrides, 3000, "refused", "mixed"),
+			}
+		},
+	}
+}
